@@ -39,8 +39,12 @@ type fsInput struct {
 	// seeded) instead of enumerated, and the fault-free run is repeated Golden
 	// times (an input of many files, whose product is large and whose runs may
 	// legitimately differ in call order).
-	Sampled int `json:"sampled,omitempty"`
-	Golden  int `json:"golden,omitempty"`
+	// Canon: these files are replaced, before anything else, by what `falco fmt`
+	// prints for them (so that they are already formatted whatever the
+	// formatter's style is).
+	Canon   []string `json:"canon,omitempty"`
+	Sampled int      `json:"sampled,omitempty"`
+	Golden  int      `json:"golden,omitempty"`
 }
 
 type fsFault struct {
@@ -557,6 +561,22 @@ func runFsfault(id, tier string, seed uint64, scratch string, start time.Time) i
 		fmt.Fprintln(os.Stderr, "falcosim:", err)
 		return 2
 	}
+	for _, in := range inputs {
+		if len(in.Canon) == 0 {
+			continue
+		}
+		exp0, err := e.expectedFor(in)
+		if err != nil {
+			fmt.Fprintln(os.Stderr, "falcosim:", err)
+			return 2
+		}
+		for _, n := range in.Canon {
+			if exp0[n] != nil {
+				in.Files[n] = string(exp0[n])
+			}
+		}
+		in.Canon = nil // the replay file carries the contents as they were used
+	}
 
 	type job struct {
 		in  *fsInput
@@ -861,6 +881,11 @@ func fsInputs(tier string, seed uint64) []*fsInput {
 	sl.Links = map[string]string{"link.vcl": "real/target.vcl"}
 	add("multi", "hand/three-files-middle-invalid", map[string]string{"a.vcl": decl, "b.vcl": "sub vcl_recv { set = ; }\n", "c.vcl": decl + "\nbackend F_x { .host = \"h\"; }\n"}, []string{"a.vcl", "b.vcl", "c.vcl"})
 
+	// one invocation on files in different states: already formatted, not formatted, formatted again, a snippet, …
+	fmtd := "sub vcl_recv {\n  #FASTLY RECV\n  esi;\n}\n"
+	add("mixed", "hand/formatted-then-unformatted", map[string]string{"a.vcl": fmtd, "b.vcl": decl, "c.vcl": fmtd, "d.vcl": decl + "\nbackend F_y { .host = \"y\"; }\n"}, []string{"a.vcl", "b.vcl", "c.vcl", "d.vcl"}).Canon = []string{"a.vcl", "c.vcl"}
+	add("mixed", "hand/unformatted-then-formatted", map[string]string{"a.vcl": decl, "b.vcl": fmtd, "c.vcl": "", "d.vcl": fmtd}, []string{"a.vcl", "b.vcl", "c.vcl", "d.vcl"}).Canon = []string{"b.vcl", "d.vcl"}
+	add("formatted", "hand/canonical", map[string]string{"a.vcl": decl}, []string{"a.vcl"}).Canon = []string{"a.vcl"}
 	// many files in one invocation, every one different in length and content
 	many := map[string]string{}
 	var margs []string
